@@ -476,3 +476,12 @@ pub fn note(what: &'static str, a: i64, b: i64) {
 pub fn stv(v: &[u32]) -> StV {
     v.to_vec()
 }
+
+/// mutex classes that are touched by the reducer context only, unless a scenario registers
+/// reducers / middlewares at run time (checked dynamically by the runtime, see RunOpts::elide)
+pub const ELIDE_MW: &str = "dyn rs_store::middleware::Middleware";
+pub const ELIDE_RED: &str = "dyn rs_store::reducer::Reducer";
+
+pub fn opts_elide() -> verif_rt::RunOpts {
+    verif_rt::RunOpts { elide: vec![ELIDE_MW, ELIDE_RED], ..Default::default() }
+}
